@@ -1065,7 +1065,27 @@ func genCrashpoints(r *Rng, idx int, tier string, step func(op string) string) {
 			}
 			crash()
 			do("start")
-		case len(live) == 0 || (roll < 55 && nextK <= 6):
+		case roll < 52:
+			// files vanish while the torrent is stopped; the crash comes right after the restart has found them
+			// missing (and re-created them), before anything else is persisted
+			do("stop")
+			for _, p := range peers {
+				p.closed = true
+				p.pending = nil
+			}
+			do(fmt.Sprintf("mutate file=%s how=delete off=0", r.Pick2("all", fmt.Sprint(r.Intn(len(l.lens))))))
+			hold := ""
+			if r.Chance(50) {
+				hold = r.Pick2("open", l.readGate())
+				do(fmt.Sprintf("gate kind=%s on=1", hold))
+			}
+			do("start")
+			crash()
+			if hold != "" {
+				do(fmt.Sprintf("gate kind=%s on=0", hold))
+				crash()
+			}
+		case len(live) == 0 || (roll < 58 && nextK <= 6):
 			if nextK <= 8 {
 				attach(r.Pick2("honest", "honest", "corrupt"))
 			}
